@@ -562,8 +562,8 @@ def sections(tier):
                           for N in ("default", 150)
                           for (S, sg) in _signed([0, 0.01, 0.1, 0.25, 0.5, 1, 2, 3, 5, 8])]
         full = _slot_alphabet(_signed([0, 0.01, 0.1, 0.5, 1, 2, 3]), _pairs([1, 2, 3, 5, 8, 20]))
-        t96 = _slot_alphabet([(0, 1), (0.01, 1), (0.1, 1), (0.5, -1), (1, 1), (2, 1)],
-                             _pairs([1, 2, 3, 5]))
+        t96 = _slot_alphabet([(0, 1), (0.1, 1), (0.5, -1), (1, 1), (2, 1)],
+                             _pairs([1, 2, 3, 5]))          # 80 values per slot
         t9 = _slot_alphabet([(0, 1), (0.5, -1), (1, 1)], [(2, 2), (1, 3), (3, 2)])
         t6 = _slot_alphabet([(0, 1), (0.5, -1), (1, 1)], [(2, 2), (1, 3)])
         sec["1mol-1mode"] = []
